@@ -114,6 +114,14 @@ func init() {
 			}
 			r.cls = st.Str("cls")
 			got := r.bytes()
+			// the same operation with the receiver aliasing an operand (copies of the registers are used,
+			// so the registers themselves stay intact) must give the same element
+			for _, al := range sm9aliased(op, grp, st, regs) {
+				if mm := Diff(i, al.b, got); mm != nil {
+					mm.Note = "receiver aliasing an operand (" + al.how + ") gives a different element than a fresh receiver"
+					return mm
+				}
+			}
 			// the register is generator^cls
 			ref, err := sm9base(grp, st.Hex("cls"))
 			if err != nil {
@@ -189,4 +197,91 @@ func sm9dec(i int, st Step) *Mismatch {
 		}
 	}
 	return nil
+}
+
+type sm9alias struct {
+	how string
+	b   []byte
+}
+
+func g1c(a *vh.G1) *vh.G1 { return new(vh.G1).Set(a) }
+func g2c(a *vh.G2) *vh.G2 { return new(vh.G2).Set(a) }
+func gtc(a *vh.GT) *vh.GT { return new(vh.GT).Set(a) }
+
+// sm9aliased repeats op with the receiver being (a copy of) one of its operands.
+func sm9aliased(op, grp string, st Step, regs map[int]*sm9reg) []sm9alias {
+	var out []sm9alias
+	switch op {
+	case "mul":
+		s, k := regs[st.Int("src")], st.Hex("k")
+		switch grp {
+		case "g1":
+			x := g1c(s.g1)
+			if _, err := x.ScalarMult(x, k); err == nil {
+				out = append(out, sm9alias{"x.ScalarMult(x, k)", x.Marshal()})
+			}
+		case "g2":
+			x := g2c(s.g2)
+			if _, err := x.ScalarMult(x, k); err == nil {
+				out = append(out, sm9alias{"x.ScalarMult(x, k)", x.Marshal()})
+			}
+		}
+	case "add":
+		a, b := regs[st.Int("a")], regs[st.Int("b")]
+		switch grp {
+		case "g1":
+			x := g1c(a.g1)
+			x.Add(x, b.g1)
+			y := g1c(b.g1)
+			y.Add(a.g1, y)
+			out = append(out, sm9alias{"x.Add(x, b)", x.Marshal()}, sm9alias{"y.Add(a, y)", y.Marshal()})
+		case "g2":
+			x := g2c(a.g2)
+			x.Add(x, b.g2)
+			y := g2c(b.g2)
+			y.Add(a.g2, y)
+			out = append(out, sm9alias{"x.Add(x, b)", x.Marshal()}, sm9alias{"y.Add(a, y)", y.Marshal()})
+		case "gt":
+			x := gtc(a.gt)
+			x.Add(x, b.gt)
+			y := gtc(b.gt)
+			y.Add(a.gt, y)
+			out = append(out, sm9alias{"x.Add(x, b)", x.Marshal()}, sm9alias{"y.Add(a, y)", y.Marshal()})
+		}
+	case "neg":
+		s := regs[st.Int("src")]
+		if grp == "g1" {
+			x := g1c(s.g1)
+			x.Neg(x)
+			out = append(out, sm9alias{"x.Neg(x)", x.Marshal()})
+		} else {
+			x := g2c(s.g2)
+			x.Neg(x)
+			out = append(out, sm9alias{"x.Neg(x)", x.Marshal()})
+		}
+	case "dbl":
+		x := g1c(regs[st.Int("src")].g1)
+		x.Double(x)
+		out = append(out, sm9alias{"x.Double(x)", x.Marshal()})
+	case "base":
+		// a used receiver instead of a fresh one
+		k := st.Hex("k")
+		switch grp {
+		case "g1":
+			x, _ := new(vh.G1).ScalarBaseMult(make([]byte, 31+1))
+			if x != nil {
+				if _, err := x.ScalarBaseMult(k); err == nil {
+					out = append(out, sm9alias{"used receiver", x.Marshal()})
+				}
+			}
+		case "g2":
+			x, _ := new(vh.G2).ScalarBaseMult(make([]byte, 31+1))
+			if x != nil {
+				if _, err := x.ScalarBaseMult(k); err == nil {
+					out = append(out, sm9alias{"used receiver", x.Marshal()})
+				}
+			}
+		}
+	}
+	return out
 }
